@@ -385,7 +385,9 @@ class Obl:
                '-fno-sanitize-recover=undefined', '-I', os.path.join(VERIF, 'include'), '-I', VERIF]
         for d in s.get('incdirs', ['skeletons']):
             cmd += ['-I', os.path.join(REPO, d)]
-        cmd += ['-I', REPO, os.path.join(VERIF, s['harness'])]
+        for d in self.defines + s.get('defines', []):
+            cmd.append('-D' + d)
+        cmd += ['-I', REPO, '-I', os.path.join(VERIF, 'harness'), os.path.join(VERIF, s['harness'])]
         lib = native_lib(self.stage.root)
         if lib:
             cmd.append(lib)
